@@ -97,6 +97,7 @@ class Env:
         self.closed = False
         self.grown = 0
         self.last_tick = None
+        self.outq_times = collections.deque()   # write instants, FIFO
         pk = dict(cfg.get('pool', {}))
         self.nprocs = cfg.get('procs', 2)
         if pk.get('putlocks'):
@@ -180,6 +181,7 @@ class Env:
     def _outq_put(self, w, msg):
         with vos.as_process(w.pid):
             self.pool._outqueue.put(msg)
+        self.outq_times.append(self.world.now)
 
     def _exit(self, w, status, notice):
         """The worker process ends.  ``notice``: it went through
@@ -312,7 +314,16 @@ class Env:
         out = sorted(set(out))
         if A.get('period'):
             out.append(round(now + A['period'], 6))
-        return sorted(set(out))[:A.get('max_adv', 4)]
+        out = sorted(set(out))[:A.get('max_adv', 4)]
+        if self.outq_times:
+            # fairness assumption (the one billiard's grace period is built
+            # on): the parent processes a message less than one lost-worker
+            # timeout after it was written
+            lim = min([self.pool.lost_worker_timeout] + [
+                r['h']._lost_worker_timeout for r in self.jobs
+                if r['h'] is not None])
+            out = [t for t in out if t - self.outq_times[0] < lim - 1e-9]
+        return out
 
     def apply(self, ev, answers=()):
         """Execute one event on the real code.  Returns the decisions the
@@ -324,6 +335,17 @@ class Env:
             getattr(self, 'ev_' + ev[0])(*ev[1:])
         except Violation as v:
             self._flag(str(v), v.signature)
+        except (vs.HarnessError, vos.WouldBlock, vos.Horizon):
+            raise
+        except Exception as exc:
+            if ev[0] not in ('tick', 'scan', 'deliver'):
+                raise
+            # these run inside pool threads: PoolThread.run turns any
+            # exception into os._exit(1) of the host process
+            import traceback
+            self._flag('%s raised %r -- in a pool thread this is '
+                       'os._exit(1) of the host\n%s' % (
+                           ev[0], exc, traceback.format_exc()[-1500:]))
         self.observe(ev)
         return self.choices.decisions
 
@@ -532,6 +554,8 @@ class Env:
 
     # parent ------------------------------------------------------------------
     def ev_deliver(self):
+        if self.outq_times:
+            self.outq_times.popleft()
         self.pool.handle_result_event()
 
     def ev_tick(self):
@@ -780,7 +804,8 @@ class Env:
                 tuple(msg(m) for m in _frames(self.outbuf)),
                 pool._state, pool._processes, len(pool._pool),
                 (rs.R, rel(rs.T)), (pl._value, pl._initial_value), th, dirty,
-                dead, self.closed, self.grown, len(self.jobs))
+                dead, self.closed, self.grown, len(self.jobs),
+                rel(self.outq_times[0]) if self.outq_times else None)
 
     # --------------------------------------------------------------- settle
     def settle(self, rounds=60):
@@ -835,6 +860,7 @@ class Env:
             dl = self.deadlines()
             self.world.now = (dl[-1] if dl else self.world.now) + \
                 (0.85 if not dl else EPS)
+            self.log.append(('settle-advance', self.world.now))
 
     def unresolved(self):
         out = []
